@@ -35,8 +35,13 @@ for meta in sorted(glob.glob(os.path.join(verif, "seeded", "*", "meta.json"))):
 for b in json.load(open(os.path.join(verif, "mutants", "benign.json")))["edits"]:
     variants.append(("benign:" + b["name"], dict(b, benign=True)))
 
-results = []
-if variants:
+# behaviour-preserving refactorings written by agents that never saw the checker (DESIGN.md section 16)
+for pd in sorted(glob.glob(os.path.join(verif, "benign", "*", "patch.diff"))):
+    variants.append(("refactoring:" + os.path.basename(os.path.dirname(pd)), {"patch": pd, "benign": True}))
+
+def run_chunk(chunk):
+    """Applies the variants of chunk (list of (index, name, spec)) one at a time to a private scratch copy."""
+    out = []
     scratch = tempfile.mkdtemp(prefix="gmverif-sens-")
     try:
         work = os.path.join(scratch, "repo")
@@ -44,7 +49,7 @@ if variants:
         sv = os.path.join(scratch, "verif")
         os.makedirs(sv)
         shutil.copy(os.path.join(verif, "known_findings.json"), sv)
-        for name, m in variants:
+        for idx, name, m in chunk:
             res = {"variant": name, "expected_rule": m.get("expect", ""), "applied": False, "flagged": False, "rules": [], "benign": bool(m.get("benign"))}
             touched = []
             try:
@@ -76,11 +81,11 @@ if variants:
                         touched = [(f, s)]
                 if res["applied"]:
                     p = subprocess.run([binp, "check", "-prop", prop, "-tier", "quick", "-repo", work, "-verif", sv], capture_output=True, text=True, env=env)
-                    out = p.stdout
+                    o = p.stdout
                     res["exit"] = p.returncode
-                    res["flagged"] = "VIOLATION property=" + prop in out
-                    res["undecided"] = "UNDECIDED" in out
-                    res["rules"] = sorted(set(re.findall(r"^  rule=(\S+)", out, flags=re.M)))
+                    res["flagged"] = "VIOLATION property=" + prop in o
+                    res["undecided"] = "UNDECIDED" in o
+                    res["rules"] = sorted(set(re.findall(r"^  rule=(\S+)", o, flags=re.M)))
                     res["expected_hit"] = (not m.get("expect")) or any(r.startswith(m["expect"]) for r in res["rules"])
             finally:
                 if touched is None:
@@ -89,9 +94,22 @@ if variants:
                 else:
                     for f, s in touched:
                         open(f, "w").write(s)
-            results.append(res)
+            out.append((idx, res))
     finally:
         shutil.rmtree(scratch, ignore_errors=True)
+    return out
+
+
+results = []
+if variants:
+    from concurrent.futures import ThreadPoolExecutor
+    nworkers = max(1, min(8, (os.cpu_count() or 2) // 2, len(variants)))
+    chunks = [[] for _ in range(nworkers)]
+    for i, (name, m) in enumerate(variants):
+        chunks[i % nworkers].append((i, name, m))
+    with ThreadPoolExecutor(max_workers=nworkers) as ex:
+        merged = [r for part in ex.map(run_chunk, chunks) for r in part]
+    results = [r for _, r in sorted(merged, key=lambda t: t[0])]
 
 ev = json.load(open(evp))
 ev["coverage"]["sensitivity"] = {
